@@ -30,6 +30,9 @@ type c04Case struct {
 	// UnprotAlg: the unprotected bucket also holds label 1 (which must not matter): 0 no, 1 the key's
 	// algorithm, 2 another algorithm
 	UnprotAlg int `json:"unprot_alg,omitempty"`
+	// StaleRaw (hash envelope, constructed, sign): the headers handed to SignHashEnvelope still carry the raw
+	// protected bytes of another message, naming another algorithm
+	StaleRaw bool `json:"stale_raw,omitempty"`
 }
 
 // unprotAlg returns the value placed under label 1 of the unprotected bucket.
@@ -63,7 +66,7 @@ func (c *c04Case) unprotWire() []byte {
 }
 
 func (c *c04Case) id() string {
-	return fmt.Sprintf("%s/%s/%s/absent=%v/alg=%s/lsp=%d/signer=%d/ext=%d/extra=%d/ualg=%d", c.Struct, c.Mode, c.Op, c.Absent, c.Alg.String(), c.LabelSp, c.SignerAlg, c.Ext, len(c.Extra.M), c.UnprotAlg)
+	return fmt.Sprintf("%s/%s/%s/absent=%v/alg=%s/lsp=%d/signer=%d/ext=%d/extra=%d/ualg=%d/stale=%v", c.Struct, c.Mode, c.Op, c.Absent, c.Alg.String(), c.LabelSp, c.SignerAlg, c.Ext, len(c.Extra.M), c.UnprotAlg, c.StaleRaw)
 }
 
 func (c *c04Case) ext() []byte {
@@ -164,6 +167,14 @@ func checkC04(c c04Case) error {
 	switch c.Mode {
 	case "constructed", "re-issued":
 		h = cose.Headers{Protected: bridge.ToProtected(pm), Unprotected: c.unprotGo()}
+		if c.StaleRaw && c.Struct == "HashEnvelope" && c.Op == "sign" {
+			other := int64(-7)
+			if c.SignerAlg == -7 {
+				other = -8
+			}
+			h.RawProtected = protBstr(rc.Map(rc.E(rc.Int(1), rc.Int(other)), rc.E(rc.Int(258), rc.Int(-16))))
+			stats.Class("hash-envelope-from-headers-with-stale-raw-bytes")
+		}
 	case "re-decoded":
 		// a Headers value that held another message before is re-used through the public
 		// UnmarshalFromRaw: what counts is the protected header decoded last
@@ -567,6 +578,9 @@ func TestC04_Grid(t *testing.T) {
 									v := av
 									v.Sp = vsp
 									run(c04Case{Struct: st, Mode: mode, Op: op, Alg: v, LabelSp: lsp, SignerAlg: sa, Ext: ext})
+									if st == "HashEnvelope" && mode == "constructed" && op == "sign" && lsp == 0 {
+										run(c04Case{Struct: st, Mode: mode, Op: op, Alg: v, LabelSp: lsp, SignerAlg: sa, Ext: ext, StaleRaw: true})
+									}
 									if lsp == 0 && vsp == av.Sp {
 										// the unprotected bucket names the key's algorithm (or another one) as well
 										run(c04Case{Struct: st, Mode: mode, Op: op, Alg: v, LabelSp: lsp, SignerAlg: sa, Ext: ext, UnprotAlg: 1})
